@@ -670,8 +670,9 @@ def r_codec(ctx) -> RuleResult:
                             res.fail(Finding("R-CODEC", mfi.module.rel, mfi.qualname, norm(n),
                                              f"label stored as string index{v.k:+d}; the serializer writes label+1, so the parser must store index-1", line=n.lineno))
         for n in own_walk(mfi.node):
-            if isinstance(n, ast.Assign) and isinstance(n.targets[0], ast.Subscript) and norm(n.targets[0].value).startswith("self."):
-                v = _offset_eval(n.targets[0].slice, env)
+            tg_ = next((t_ for t_ in n.targets if isinstance(t_, ast.Subscript) and norm(t_.value).startswith("self.")), None) if isinstance(n, ast.Assign) else None
+            if tg_ is not None:          # also the store in a chained assignment  x = self.table[k] = {}
+                v = _offset_eval(tg_.slice, env)
                 if v is not None:
                     n_par += 1
                     ok = v.k == -1
@@ -1010,9 +1011,11 @@ def _check_emitters(ctx, res: RuleResult):
             if True:
                 base = e
                 k = 0
-                if isinstance(e, ast.BinOp) and isinstance(e.op, (ast.Add, ast.Sub)) and isinstance(e.right, ast.Constant) and isinstance(e.right.value, int):
-                    base = e.left
-                    k = e.right.value if isinstance(e.op, ast.Add) else -e.right.value
+                if isinstance(e, ast.BinOp) and isinstance(e.op, (ast.Add, ast.Sub)):
+                    rv = e.right.value if isinstance(e.right, ast.Constant) else try_const(ctx, fi, e.right, default=None)      # a literal or a module-level constant
+                    if isinstance(rv, int) and not isinstance(rv, bool):
+                        base = e.left
+                        k = rv if isinstance(e.op, ast.Add) else -rv
                 is_label = (isinstance(base, ast.Name) and label_vars.get(base.id) == "label") or \
                            (isinstance(base, ast.Subscript) and isinstance(base.value, ast.Name) and label_vars.get(base.value.id) == "edge")
                 if is_label:
